@@ -210,6 +210,24 @@ Proof.
   apply ev_rule10_exists. exact Hs.
 Qed.
 
+(* a character that ends the path and starts nothing *)
+Definition closer (c : N) : Prop := dot_sym c = true /\ c <> 46 /\ c <> 91 /\ c <> 32 /\ c <> 92 /\ c <> 40.
+
+Lemma ev_rule7_closer c t pos : closer c -> evG (PRef 7) (c :: t) pos PFail.
+Proof.
+  intros (Hs & H46 & H91 & _). eapply ev_ref; [reflexivity|].
+  apply ev_alt_r; [apply ev_seq_fail; apply (ev_lit_fail G [46; 46]); apply strip2_no; exact H46|].
+  apply ev_alt_r; [apply ev_seq_fail; apply ev_cap_fail; apply ev_seq_fail; apply (ev_lit_fail G [46]); apply strip1_no; exact H46|].
+  eapply ev_ref; [reflexivity|]. apply ev_seq_fail. apply ev_cap_fail. apply ev_seq_fail. eapply ev_ref; [reflexivity|]. apply ev_seq_fail.
+  apply (ev_lit_fail G [91]). apply strip1_no. exact H91.
+Qed.
+Lemma ev_rule8_closer c t pos : closer c -> evG (PRef 8) (c :: t) pos PFail.
+Proof.
+  intros (Hs & H46 & _). eapply ev_ref; [reflexivity|]. apply ev_seq_fail. apply ev_cap_fail. apply ev_seq_fail.
+  apply (ev_lit_fail G [46]). apply strip1_no. exact H46.
+Qed.
+
+
 (* ---------- the token replay ---------- *)
 From JP Require Import Frame NoDollar.
 
